@@ -893,3 +893,39 @@ class Env:
 
 
 PROPERTY = C07
+
+
+# ---------------------------------------------------------------------------------------------
+# Second tie for the pure core (appended; harness/gen_ast.py, coq/Base/PyMini.v, Proofs/AstExceptionsEquiv.v):
+# the SOURCE TEXT of JsonRpcException.__init__ / supports_code / to_response_error,
+# JsonRpcServerError.__init__ / supports_code and _is_server_error_code is translated on every run by a
+# fail-closed AST translator into a deep embedding, and the kernel re-checks that the translation computes
+# exactly Model/Exceptions.v (base_init, construct, supports_code, to_response_error) for every row of the
+# reflected class table.  Imported late ("Module::theorem") so that a broken translator tie does not hide
+# the other obligations.
+import gen_ast as _gen_ast
+
+_AST_MOD = "Proofs.AstExceptionsEquiv"
+# ast_exceptions_equiv = ast_is_server_error_code_equiv /\ ast_supports_code_inherited_equiv /\
+# ast_supports_code_range_equiv /\ ast_base_init_equiv /\ ast_server_error_init_equiv /\ ast_to_response_error_equiv
+# /\ ast_table_supports_code /\ ast_table_construct (one Print Assumptions instead of eight)
+C07.obligations = list(C07.obligations) + [_AST_MOD + "::" + n for n in (
+    "ast_exceptions_equiv", "ast_exceptions_example")]
+C07.coq_targets = list(C07.coq_targets) + ["Proofs/AstExceptionsEquiv.vo"]
+C07.trusted_base = list(C07.trusted_base) + [
+    "translator tie: harness/gen_ast.py (Python ast -> PyMini, fail-closed) and the PyMini semantics "
+    "coq/Base/PyMini.v (hand-written meaning of the Python subset, incl. lsprotocol's int32 validator of "
+    "ResponseError.code, asserted by reflection)"]
+_prev_regenerate = C07.regenerate
+
+
+def _regenerate(self, chk):
+    try:
+        _prev_regenerate(self, chk)        # the reflected table and the extraction cone first
+    finally:                               # translate even when the table stopped fail-closed (no stale copy)
+        with core._Lock("coq"):            # coq/Gen is shared by concurrent checks
+            _gen_ast.gen_exceptions()
+            core._coq_make(["Proofs/AstExceptionsEquiv.vo"])
+
+
+C07.regenerate = _regenerate
